@@ -136,7 +136,12 @@ def check_case(ctx, case, record=True):
             nd = nodes[i]
             if nd["k"] == "call":
                 prod = (label_call(i),)
-                if prod not in done or nd["beh"]["t"] == "raise":
+                if nd["beh"]["t"] == "raise":
+                    continue
+                # a result nobody consumes is judged once its producer was reported completed; a result with
+                # consumers once all of them were (they can only have run after the producer returned) - the
+                # statement ties the lifetime to the consumers, not to when the producer's completion is reported
+                if prod not in done and not (users and i not in ent):
                     continue
                 if i in ent:
                     # raw result is consumed by the store write only
